@@ -190,6 +190,9 @@ func (s *Solver) Check(extra ...*Term) Result {
 	}
 	s.raw("(check-sat)")
 	lines := s.sync()
+	if s.Log != nil {
+		fmt.Fprintf(s.Log, "; -> %v in %v\n", lines, time.Since(t0))
+	}
 	if len(extra) > 0 {
 		s.Pop(1)
 	}
